@@ -111,22 +111,22 @@ func (r *Reporter) KnownFinding(prop, what string) {
 }
 
 type Engine struct {
-	App      *chain.App
-	Obs      *obs.Observer
-	Monitors []Monitor
-	Rep      *Reporter
-	Trace    *Trace
-	Cur      *obs.Snapshot
-	Step     int
-	RawSnaps bool // take raw KV dumps in snapshots
-	SeedTag  string
-	cur      *TraceBlock
-	Stats    map[string]*MsgStat // per message type URL
-	TxOK     int
+	App                    *chain.App
+	Obs                    *obs.Observer
+	Monitors               []Monitor
+	Rep                    *Reporter
+	Trace                  *Trace
+	Cur                    *obs.Snapshot
+	Step                   int
+	RawSnaps               bool // take raw KV dumps in snapshots
+	SeedTag                string
+	cur                    *TraceBlock
+	Stats                  map[string]*MsgStat // per message type URL
+	TxOK                   int
 	Respelled, RespelledOK int // transactions carrying an upper-case address spelling (sent, accepted)
-	TxFail   int
-	Blocks   int
-	HasherID string
+	TxFail                 int
+	Blocks                 int
+	HasherID               string
 	// PropOverride relabels violations of auxiliary monitors (e.g. C01 scans on a re-imported chain
 	// are C09 evidence); ClausePrefix says where.
 	PropOverride string
